@@ -132,7 +132,8 @@ def run_c03(tier, seed):
         for a in sysargs:
             cases.append(dict(reqs=[(name, a)], line=None, chunk="whole", quit_at=None))
     # requests with very many elements (beyond any pre-allocation cap of the parser), followed by ordinary ones
-    for nel in (1023, 1024, 1025, 1026, 1100, 2049, 2500):
+    import thresholds as T
+    for nel in T.extend([1023, 1024, 1025, 1026, 1100, 2049, 2500], 3, 20000, limit=6):
         for name in ("DEL", "MGET", "SADD", "RPUSH", "MSET", "ZADD", "NOSUCH"):
             nargs = nel - 1
             if name == "MSET":
